@@ -29,6 +29,8 @@ def registry():
         reg.update(props_c03.PROPS)
         from . import props_c10
         reg.update(props_c10.PROPS)
+        from . import props_c08
+        reg.update(props_c08.PROPS)
     except ImportError:
         pass
     return reg
@@ -53,6 +55,26 @@ def shrink(prop, case, status, budget=150, seconds=90):
                 progress = True
                 break
     return cur
+
+
+def fresh_failure(pid, case, tmp):
+    """evaluate one case in a new interpreter; returns the failure detail, or None if it passes there"""
+    import subprocess
+    path = os.path.join(tmp, "fresh_case.json")
+    json.dump({"case": {"case": case}}, open(path, "w"), default=str)
+    env = dict(os.environ)
+    r = subprocess.run([sys.executable, "-m", "harness.main", pid, "--replay", path], cwd=core.VERIF,
+                       capture_output=True, text=True, env=env, timeout=900)
+    lines = r.stdout.split("\n")
+    if "REPLAY-STATUS specfail" not in lines:
+        return None
+    for line in lines:
+        if line.startswith("{") and '"status"' in line:
+            try:
+                return json.loads(line).get("detail")
+            except ValueError:
+                break
+    return {"what": "fails when replayed (detail too long to quote)"}
 
 
 def main(argv=None):
@@ -94,10 +116,28 @@ def main(argv=None):
             out.notes.append("model could not be built: correspondence not run")
         # shrink the first property failure
         if out.spec_failures:
+            # shrink, then make sure that what is written as a replay fails in a FRESH process (the
+            # way --replay will run it): candidates are tried in order shrunk -> original -> the others
             f = out.spec_failures[0]
             small = shrink(prop, f["case"], "specfail")
-            r = prop.evaluate([small])[0]
-            out.spec_failures[0] = {"case": small, "detail": r["detail"], "shrunk_from": f["case"] if small != f["case"] else None}
+            cands = [(small, f["case"] if small != f["case"] else None), (f["case"], None)]
+            cands += [(g["case"], None) for g in out.spec_failures[1:6]]
+            chosen = None
+            for cand, frm in cands:
+                det = fresh_failure(a.pid, cand, tmp)
+                if det is not None:
+                    chosen = {"case": cand, "detail": det, "shrunk_from": frm}
+                    break
+            if chosen is not None:
+                out.spec_failures[0] = chosen
+            else:
+                # none of the failing inputs fails when run alone in a fresh process: they prove
+                # nothing; the run is reported through the correspondence instead
+                out.notes.append("%d failing inputs seen in this run were not reproducible in a fresh process"
+                                 % len(out.spec_failures))
+                out.mismatches.append({"case": f["case"], "detail": {"what": "failure not reproducible in a fresh process",
+                                                                      "seen": f["detail"]}})
+                out.spec_failures = []
         return core.finish(a.pid, a.tier, seed, t0, oblig, scan, build_msg, out, xcheck, prop.rule)
     finally:
         shutil.rmtree(tmp, ignore_errors=True)
@@ -167,7 +207,8 @@ def replay(prop, path):
             {k: payload.get(k) for k in ("kind", "proof_problems", "source_scan", "build", "crosscheck")})[:1500])
         return 1
     r = prop.evaluate([case])[0]
-    print(json.dumps({"status": r["status"], "detail": r["detail"]}, default=str)[:3000])
+    print("REPLAY-STATUS %s" % r["status"])
+    print(json.dumps({"status": r["status"], "detail": r["detail"]}, default=str)[:20000])
     if r["status"] != "ok":
         print("VIOLATION property=%s replay=%s%s" % (prop.pid, path,
               "" if r["status"] == "specfail" else " no-failing-input-found"))
